@@ -56,6 +56,13 @@ def hostile_frames():
     add("unknown_cmd", ["FOO", "x"])
     add("lower_cmd", ["event", GOOD])
     add("many_filters", ["REQ", "s"] + [{"kinds": [i]} for i in range(40)])
+    # correctly signed events that pass validation but that the storage engine cannot take (failure inside the transaction)
+    add("signed_nested_tag", ["EVENT", make_event("A", 1, 410, [["t", ["x"]]], "nested tag value")])
+    add("signed_object_tag", ["EVENT", make_event("A", 1, 411, [["p", {"a": 1}]], "object tag value")])
+    add("signed_huge_kind", ["EVENT", make_event("A", 2 ** 63, 412, [], "kind beyond 64 bits")])
+    add("signed_huge_created_at", ["EVENT", make_event("A", 1, 2 ** 64, [], "created_at beyond 64 bits")])
+    add("signed_bigint_tag", ["EVENT", make_event("A", 1, 413, [["t", 2 ** 70]], "integer tag item beyond 64 bits")])
+    add("signed_bare_tags", ["EVENT", make_event("A", 5, 414, [["e"], ["expiration"], ["d"], ["delegation"]], "bare tags")])
     add("dup_delegation", ["EVENT", dict(GOOD, tags=[["delegation", "x"]])])
     add("deleg_4_bad", ["EVENT", dict(GOOD, tags=[["delegation", "zz", "c", "zz"]])])
     for name, raw in (("txt_empty", ""), ("txt_brace", "{"), ("txt_bracket", "["), ("txt_nul", "nul"), ("txt_trailing_comma", "[1,]"),
@@ -82,6 +89,7 @@ def HF():
 EMBED = {
     "mid": lambda h: [("c1", ["REQ", "p1", {"kinds": [1]}]), ("c1", h), ("c1", ["EVENT", PROBE_EV]), ("c1", ["REQ", "p2", {"#t": ["probe"]}]), ("c1", ["CLOSE", "p1"])],
     "twice": lambda h: [("c1", h), ("c1", h), ("c1", ["EVENT", PROBE_EV]), ("c1", ["REQ", "p2", {"#t": ["probe"]}])],
+    "five_times": lambda h: [("c1", h)] * 5 + [("c1", ["EVENT", PROBE_EV]), ("c1", ["REQ", "p2", {"#t": ["probe"]}])],
     "then_drop": lambda h: [("c1", ["REQ", "p1", {"kinds": [1]}]), ("c1", h), ("c1", DROP)],
 }
 C2_SCRIPT = [("c2", ["REQ", "w", {"kinds": [1]}]), ("c2", ["EVENT", OTHER_EV])]
@@ -174,7 +182,7 @@ def judge(x, baseline_c2, viol, cid, sig, hname, emb):
         pass  # C04's business
     if not closed:
         # every later probe is answered
-        if emb in ("mid", "twice"):
+        if emb in ("mid", "twice", "five_times"):
             oks = [m for m in fr if m[0] == "OK" and m[1] == PROBE_EV["id"]]
             if len(oks) != 1:
                 viol.append({"case": cid, "clause": "keeps-answering-wellformed-commands", "sig": sig,
@@ -261,7 +269,7 @@ def coverage(tier, agg):
         "rule": "%d hostile frames (each of %d JSON values as the frame, the command, the EVENT payload, every event field, tag list / tag / tag item, "
                 "the REQ sub id, the filter, every filter key and list member, the CLOSE and AUTH argument; missing and extra event fields; short "
                 "frames; unknown and lower-case commands; 40 filters; malformed delegation; 20 invalid / huge / deeply nested JSON texts) x embeddings "
-                "{between probes, twice, followed by disconnect} x backends at the default schedule, plus every 1-deviation schedule for %d frames; "
+                "{between probes, twice, five times, followed by disconnect} x backends at the default schedule, plus every 1-deviation schedule for %d frames; "
                 "connection 2 subscribes before and submits after; oracle: nothing escapes start_client, no unretrieved task exception, later "
                 "probes answered or connection closed with registry entry and tasks gone, connection 2's transcript equal to the run without the "
                 "hostile frame, nothing left after both disconnect." % (len(HF()), len(T), len(SUBSET) if tier == "thorough" else 6),
